@@ -140,7 +140,17 @@ def build1d(B, cfg):
     rhs = fd.modeldisc.fvm(model, mesh, num, numflux=cfg.get('flux'), bcL=bcL, bcR=bcR)
     prim, cons = make_state(B, cfg['model'], model, n)
     field = fd.field.fdata(model, mesh, cons)
+    _warm_up(B, cfg, lambda: rhs.rhs(fd.field.fdata(model, mesh, [c.copy() for c in make_state(B, cfg['model'], model, n, tag='dk')[1]])))
     return {'model': model, 'mesh': mesh, 'num': num, 'rhs': rhs, 'prim': prim, 'cons': cons, 'field': field, 'n': n}
+
+
+def _warm_up(B, cfg, evaluate):
+    """the operator object handed to the harness has already been evaluated once on ANOTHER admissible field at the same time
+    (integrator stages, Jacobians, monitors and repeated solves all do that): anything the operator keeps between evaluations
+    must not leak into the evaluation under test. Skipped for path-exploring configurations (it would square the path count)."""
+    if cfg.get('explore') or cfg.get('warm') is False:
+        return
+    evaluate()
 
 
 def cut(B, exprs, cut_arrays, prefix='F'):
@@ -183,5 +193,7 @@ def build2d(B, cfg, source=None):
     prim = [rho, V, p]
     cons = model.prim2cons(prim)
     field = fd.field.fdata(model, mesh, cons)
+    if source is None:
+        _warm_up(B, cfg, lambda: rhs.rhs(fd.field.fdata(model, mesh, [2 * c for c in cons])))
     return {'model': model, 'mesh': mesh, 'num': num, 'rhs': rhs, 'prim': prim, 'cons': cons, 'field': field,
             'n': n, 'nx': nx, 'ny': ny}
